@@ -182,14 +182,18 @@ pub fn estimate_add_policy(token_blocks: &[PreflateTokenBlock]) -> DictionaryAdd
         }
     }
 
+    // the limit is serialised as an 8 bit value, so it must not exceed 255
+    // (a smaller limit only affects how well long matches are predicted)
+    const MAX_LIMIT: u32 = 255;
+
     if max_length == 0 && block_4k {
         DictionaryAddPolicy::AddFirstExcept4kBoundary
     } else if !last_outside_32k_seen {
         DictionaryAddPolicy::AddFirstWith32KBoundary
     } else if max_length_last_add < max_length {
-        DictionaryAddPolicy::AddFirstAndLast(max_length_last_add as u16)
+        DictionaryAddPolicy::AddFirstAndLast(std::cmp::min(max_length_last_add, MAX_LIMIT) as u16)
     } else if max_length < 258 {
-        DictionaryAddPolicy::AddFirst(max_length as u16)
+        DictionaryAddPolicy::AddFirst(std::cmp::min(max_length, MAX_LIMIT) as u16)
     } else {
         DictionaryAddPolicy::AddAll
     }
